@@ -367,6 +367,10 @@ async fn run_async(scn: &Scn, blobs: &mut HashMap<Vec<u8>, u32>) -> Raw {
                     terminated = true;
                     let n0 = collected.lock().unwrap().len();
                     unit.agent.terminate().await;
+                    // the termination has settled once the unit's task has returned (its listener is dropped with
+                    // it): a connection made before that is still accepted by the OS and then dropped, which
+                    // reads as `nocfg` instead of `refused` (a load-dependent false alarm of an earlier version)
+                    wait_until(ARRIVE, || unit.task.is_finished()).await;
                     let c3 = collected.clone();
                     wait_until(SETTLE, || c3.lock().unwrap().len() > n0).await;
                     tokio::time::sleep(Duration::from_millis(30)).await;
